@@ -332,6 +332,8 @@ type Config struct {
 	// MakeGen, when set, supplies the relay address generator (e.g. one of pion/turn's bundled
 	// generators over a simnet.VNet) instead of the harness' ledger generator.
 	MakeGen func(n *simnet.Net) turn.RelayAddressGenerator
+	// MakeGenTCP, when set, supplies a generator of their own to the TCP listeners.
+	MakeGenTCP func(n *simnet.Net) turn.RelayAddressGenerator
 	// PlainConns: TCP connections reach the server (control/data connections, relay-side
 	// connections) as bare net.Conn values without ReadFrom/WriteTo.
 	PlainConns bool
@@ -689,8 +691,12 @@ func NewWorld(cfg Config, rec *Rec, rng *rand.Rand, bubble bool) (*World, error)
 		if cfg.PlainConns {
 			nl = plainListener{l}
 		}
+		lgen := gen
+		if cfg.MakeGenTCP != nil {
+			lgen = cfg.MakeGenTCP(w.Net)
+		}
 		sc.ListenerConfigs = append(sc.ListenerConfigs, turn.ListenerConfig{
-			Listener: nl, RelayAddressGenerator: gen, PermissionHandler: permHandler,
+			Listener: nl, RelayAddressGenerator: lgen, PermissionHandler: permHandler,
 		})
 	}
 	srv, err := turn.NewServer(sc)
